@@ -12,6 +12,12 @@ use crate::util::Rng;
 
 pub const SLOT_OPEN: char = '\u{E000}';
 pub const SLOT_CLOSE: char = '\u{E001}';
+/// brackets around a numeric literal that sits where `await` would be legal if the program
+/// body were an async function (not inside a nested function, method or generator): C07
+/// replaces a chosen subset by `(await order({k: lit / 2}))`, which the scripted host answers
+/// with `lit`
+pub const AWAIT_OPEN: char = '\u{E002}';
+pub const AWAIT_CLOSE: char = '\u{E003}';
 
 #[derive(Clone, Copy, PartialEq, Eq, Debug)]
 pub enum Ty {
@@ -109,11 +115,12 @@ impl Gen {
     // ───────────── expressions ─────────────
 
     fn num_lit(&mut self) -> String {
-        if self.hostile_numbers && self.rng.chance(1, 6) {
+        let lit = if self.hostile_numbers && self.rng.chance(1, 6) {
             (*self.rng.pick(&["0", "-1", "0.5", "2.5", "-0", "255", "65536", "2147483647", "1e3", "7", "100", "-7.25", "3"])).to_string()
         } else {
             format!("{}", self.rng.range(0, 20))
-        }
+        };
+        if self.in_function { lit } else { format!("{}{}{}", AWAIT_OPEN, lit, AWAIT_CLOSE) }
     }
 
     fn str_lit(&mut self) -> String {
@@ -715,6 +722,45 @@ pub fn render_js(marked: &str) -> String {
                     break;
                 }
             }
+        } else if c != AWAIT_OPEN && c != AWAIT_CLOSE {
+            out.push(c);
+        }
+    }
+    out
+}
+
+/// number of await-capable literal sites
+pub fn await_sites(marked: &str) -> usize {
+    marked.chars().filter(|c| *c == AWAIT_OPEN).count()
+}
+
+/// Plain JavaScript in which the await-capable literal sites chosen by `choose(ordinal)`
+/// read their value from the host: `(await order({k: (lit) / 2}))`.
+pub fn render_await(marked: &str, mut choose: impl FnMut(usize) -> bool) -> String {
+    let mut out = String::with_capacity(marked.len() + 256);
+    let mut it = marked.chars();
+    let mut ord = 0;
+    while let Some(c) = it.next() {
+        if c == SLOT_OPEN {
+            for c2 in it.by_ref() {
+                if c2 == SLOT_CLOSE {
+                    break;
+                }
+            }
+        } else if c == AWAIT_OPEN {
+            let mut lit = String::new();
+            for c2 in it.by_ref() {
+                if c2 == AWAIT_CLOSE {
+                    break;
+                }
+                lit.push(c2);
+            }
+            if choose(ord) {
+                out.push_str(&format!("(await order({{k: ({}) / 2}}))", lit));
+            } else {
+                out.push_str(&lit);
+            }
+            ord += 1;
         } else {
             out.push(c);
         }
@@ -749,7 +795,7 @@ pub fn render_with(marked: &str, mut fill: impl FnMut(usize, char) -> Option<Str
                 out.push_str(&t);
             }
             ord += 1;
-        } else {
+        } else if c != AWAIT_OPEN && c != AWAIT_CLOSE {
             out.push(c);
         }
     }
